@@ -28,7 +28,10 @@ def check_case(case) -> Outcome:
     out.classes += [c for c in lang_classes(spec) if c in ('lang:extend', 'lang:depth>=3', 'lang:depth>=2')]
     lg, model, objs, g, err, msg = generate_graph(spec, mdesc)
     if err:
-        out.add(err, msg)
+        if err.startswith('skipped'):
+            out.classes.append(err)
+        else:
+            out.add(err, msg)
         return out
     am = AbstractModel(L, [a['type'] for a in mdesc['assets']], mdesc['links'])
     names = [str(o.name) for o in objs]
